@@ -25,7 +25,7 @@ EqHashViol(o) ==
   LET same == J2V(o.c.a) = J2V(o.c.b)
       reps == o.o.reps
   IN UNION {(IF Prop = "C06" THEN RepViol06(reps[i], same) ELSE RepViol07(reps[i], same))
-            \cup V(J2V(reps[i].pa) = J2V(o.c.a) /\ J2V(reps[i].pb) = J2V(o.c.b), "harness-built-other-value") : i \in 1..Len(reps)}
+            \cup (IF reps[i].pa.k = "same" THEN {} ELSE V(J2V(reps[i].pa) = J2V(o.c.a) /\ J2V(reps[i].pb) = J2V(o.c.b), "harness-built-other-value")) : i \in 1..Len(reps)}
      \cup (IF Prop = "C06" THEN V(\A i \in 1..Len(reps) : reps[i].ab = reps[1].ab, "unstable-across-constructions") ELSE {})
 
 Eq3Viol(o) ==
